@@ -18,7 +18,7 @@ register('C03', level='other', sidecars=['net_bounded', 'net_ops_bounded'], trus
                      'change of reference shifts all potentials by one constant')
 register('C04', level='other', sidecars=BASE + ['net_bounded', 'net_ops_bounded'], trusted=NET,
          explanation='bounded: superposition, scaling and zero-in/zero-out on topologies T1 and T3 through the library source-zeroing operations, all values symbolic')
-register('C05', level='other', sidecars=BASE + ['solution', 'net_bounded'], trusted=NET,
+register('C05', level='other', sidecars=BASE + ['solution', 'net_bounded', 'multifreq'], trusted=NET,
          explanation='contracts on get_power of the network, DC and complex solutions plus the loop-free sign lemmas for R, L, C element laws; Tellegen on the bounded topologies')
 register('C06', level='other', sidecars=BASE + ['net_bounded', 'net_ops_bounded'], trusted=NET,
          explanation='bounded: port impedance of series/parallel ladders (symmetry, reference independence, identical nodes, element impedance), open-circuit voltage on T1')
@@ -33,3 +33,6 @@ register('C17', level='proof', sidecars=BASE + ['components', 'loaders', 'dump_l
          explanation='loader table, to_complex, load_network, dump_load round trips under the assumed json/yaml contract')
 register('C19', level='proof', sidecars=BASE + ['components', 'periodic', 'loaders', 'dump_load', 'net_ops_bounded'], trusted=NUM,
          explanation='raises-iff contracts on constructors and loaders')
+register('C09', level='other', sidecars=BASE + ['components', 'periodic', 'transformers', 'multifreq'], trusted=NUM + ['numpy-array'],
+         explanation='contracts on frequency_components (sinusoidal sources; periodic source with up to 8 harmonics), TimeDomainSolution (sum of |X_k| cos(w_k t + arg X_k), power = v(t) i(t)) '
+                     'and FrequencyDomainSolution (one- and two-sided) for an arbitrary stubbed network solver; per-harmonic source phasors are the periodic translator contracts of C07')
